@@ -1730,7 +1730,7 @@ func scHostile(n *nodis.Nodis, r *rand.Rand, rounds int) string {
 		if inMulti {
 			p = append(p, encodeCommand([][]byte{[]byte("MULTI")})...)
 		}
-		for i := 0; i < 48; i++ {
+		for i := 0; i < 24; i++ {
 			p = append(p, encodeCommand([][]byte{[]byte("GET"), []byte("bigv")})...)
 		}
 		if inMulti {
@@ -1740,7 +1740,7 @@ func scHostile(n *nodis.Nodis, r *rand.Rand, rounds int) string {
 		a.Write(p) // and never read
 		for k := 0; k < 6; k++ {
 			time.Sleep(100 * time.Millisecond)
-			what := fmt.Sprintf("a client sent %d x GET of a 1 MiB value (inside MULTI/EXEC: %v) and stopped reading", 48, inMulti)
+			what := fmt.Sprintf("a client sent %d x GET of a 1 MiB value (inside MULTI/EXEC: %v) and stopped reading", 24, inMulti)
 			if s := check(900000+k, what); s != "" {
 				return s
 			}
